@@ -60,6 +60,11 @@ def wawk_emit(src):
     return list(forms), symbols
 
 
+def _textmode(text):
+    """what open(path).read() hands to the CSV reader: the model is given the file's text, line ends as the text layer reports them"""
+    return text.replace('\r\n', '\n').replace('\r', '\n')
+
+
 _PARSED = {}
 
 
@@ -204,7 +209,7 @@ def model_lines(steps):
             lines.append(' '.join(['loadvcd', hx(st[1]) or '-', hx(f'f{nfile}.vcd')] + [hx(t) for t in toks]))
         elif kind == 'loadcsv':
             nfile += 1
-            lines.append(' '.join(['loadcsv', hx(st[1]) or '-', hx(f'f{nfile}.csv'), hx(st[2]) or '-']))
+            lines.append(' '.join(['loadcsv', hx(st[1]) or '-', hx(f'f{nfile}.csv'), hx(_textmode(st[2])) or '-']))
         elif kind == 'loadfail':
             lines.append(f'loadfail {hx(st[1])} {"ext" if st[2] == "ext" else "reader"}')
         elif kind == 'unload':
